@@ -428,7 +428,7 @@ def advanceFrameAfterPoll (s : P2P) (now : Nat) : M (P2P × Except GgrsError (Li
   let s ← s.updatePlayerDisconnects now
   let (s, reqs) ← if lockstep then s.advanceLockstepFrame now reqs else s.advanceRollbackFrame now reqs
   let s ← s.checkWaitRecommendation
-  return (s, .ok reqs)
+  return (s.trimEvents, .ok reqs)
 
 def advanceFrame (s : P2P) (now : Nat) (received : List (Nat × Msg)) :
     M (P2P × Except GgrsError (List Request)) := do
